@@ -85,6 +85,9 @@ func vhRequest(sys *System, ctx *Context, op int, loc string) vhResp {
 	case 7: // a client writes the creation marker property itself, with an odd value
 		_, err := sys.AddFact(ctx, loc, "", `{"!createdAt":5}`)
 		return vhResp{nil, err != nil}
+	case 11: // clearing a location removes its facts and rules; the location still exists
+		err := sys.ClearLocation(ctx, loc)
+		return vhResp{nil, err != nil}
 	case 8: // the location's own cache hint, with a value that is not a number of milliseconds
 		_, err := sys.AddFact(ctx, loc, "", `{"!cacheTTL":"5m"}`)
 		return vhResp{nil, err != nil}
@@ -279,5 +282,77 @@ func VH_C17_diff_exist(linear, ttlA, ttlB, op1, op2, op3 int) {
 			vassert(vdeepEq(ra.s, rb.s), "same-response-under-any-ttl")
 		}
 	}
+	vreach("end")
+}
+
+// VH_C17_delete_busy: with existence checking, a location is deleted (and the deletion
+// acknowledged) while another request still has it open. From the acknowledgement on the
+// location does not exist, whatever the cache TTL: requests fail instead of being served
+// from the instance the busy request keeps alive, and they do not re-create it.
+func VH_C17_delete_busy(linear, ttl int) {
+	vsetNow(vhBase)
+	sys, ctx := vhSystem("D", ttl, true, linear == 1)
+	now := vhBase
+	tick := func(tag string) {
+		now += vsymInt64(tag, 0, 20000000000)
+		vsetNow(now)
+	}
+	_, err := sys.CreateLocation(ctx.SubContext(), "shared")
+	vassume(err == nil)
+	wctx := ctx.SubContext()
+	loc, err := sys.findLocation(wctx, "shared", true)
+	vassume(err == nil && loc != nil)
+	tick("d")
+	vassert(sys.DeleteLocation(ctx.SubContext(), "shared") == nil, "delete-succeeds")
+	if vchoose(2) == 1 {
+		// a request arrives while the busy one is still open ...
+		tick("m")
+		_, err = sys.AddFact(ctx.SubContext(), "shared", "k", `{"a":"1"}`)
+		vassert(err != nil, "deleted-location-does-not-exist")
+	}
+	tick("r")
+	vassume(sys.releaseLocation(wctx, "shared") == nil)
+	// ... or after it has finished
+	tick("e")
+	_, err = sys.AddFact(ctx.SubContext(), "shared", "k", `{"a":"1"}`)
+	vassert(err != nil, "deleted-location-does-not-exist")
+	_, err = sys.GetFact(ctx.SubContext(), "shared", "k")
+	vassert(err != nil, "deleted-location-does-not-exist")
+	vreach("end")
+}
+
+// VH_C17_release_after_delete: request 1 has the location open when it is deleted; request
+// 2 then opens it again (a new entry, a new instance) and is still working when request 1
+// finishes. Request 1's release must not count against request 2's entry: request 2's
+// acknowledged write is visible to every later request.
+func VH_C17_release_after_delete(linear, ttl int) {
+	vsetNow(vhBase)
+	sys, ctx := vhSystem("R", ttl, false, linear == 1)
+	now := vhBase
+	tick := func(tag string) {
+		now += vsymInt64(tag, 0, 20000000000)
+		vsetNow(now)
+	}
+	w1 := ctx.SubContext()
+	loc1, err := sys.findLocation(w1, "shared", true)
+	vassume(err == nil && loc1 != nil)
+	tick("d")
+	vassume(sys.DeleteLocation(ctx.SubContext(), "shared") == nil)
+	tick("o")
+	w2 := ctx.SubContext()
+	loc2, err := sys.findLocation(w2, "shared", true)
+	vassume(err == nil && loc2 != nil)
+	tick("r1")
+	vassume(sys.releaseLocation(w1, "shared") == nil)
+	tick("g")
+	sys.GetFact(ctx.SubContext(), "shared", "k")
+	tick("w")
+	_, err = loc2.AddFact(w2, "k", Map{"a": "1"})
+	vassume(err == nil)
+	tick("r2")
+	vassume(sys.releaseLocation(w2, "shared") == nil)
+	tick("e")
+	_, err = sys.GetFact(ctx.SubContext(), "shared", "k")
+	vassert(err == nil, "acknowledged-write-visible-to-later-request")
 	vreach("end")
 }
